@@ -81,7 +81,6 @@ deriving DecidableEq, Repr
 structure State where
   alive : Nat → Bool              -- the process exists (not crashed, did not kill itself)
   running : Nat → Bool            -- ServerBase.running (always true for workers)
-  half : Nat → Bool               -- shut down by its *outgoing thread*; main thread still in select()
   cleared : Nat → Bool            -- self.employees.clear() happened
   outAlive : Nat → Bool           -- outgoing thread alive
   upOpen : Nat → Bool             -- node's end of the connection to its boss is open
@@ -106,7 +105,6 @@ structure State where
 def init : State where
   alive := fun _ => true
   running := fun _ => true
-  half := fun _ => false
   cleared := fun _ => false
   outAlive := fun _ => true
   upOpen := fun _ => true
@@ -166,7 +164,6 @@ joined (pending items are dropped); `DetachedServer`: every client connection cl
 when upstream is already closed). -/
 def finishShutdown (s : State) (p : Nat) : State :=
   { s with
-    half := upd s.half p false
     outAlive := upd s.outAlive p false
     outq := upd s.outq p []
     copen := if p = 0 then (fun _ => false) else s.copen
@@ -212,7 +209,8 @@ def getTask : List ((Nat × Nat) × Nat) → Nat × Nat → Option Nat
 /-- `handle_request`: `request not in self.clients[conn] or request not in self.tasks` ->
 ERROR 'Unknown task.' and the client is disconnected; otherwise ship or mark waiting -/
 def handleRequest (t : Topo) (s : State) (c k : Nat) (emits : List (Dest × Msg)) : State :=
-  let bad := clientGone t (s.put 0 [(.client c, .error)]) c emits
+  -- ERROR 'Unknown task.' is written directly (fix 9f2bad4), then the client is disconnected
+  let bad := clientGone t { s with toClient := upd s.toClient c (s.toClient c ++ [.error]) } c emits
   match getTask s.tasks (c, k) with
   | none => bad
   | some m =>
@@ -271,8 +269,7 @@ inductive Label where
   | recvUp (n : Nat) (emits : List (Dest × Msg)) (fails : Bool)
   | recvClient (c : Nat) (emits : List (Dest × Msg)) (fails : Bool)
   | flush (n : Nat)
-  | outReset (n : Nat)
-  | wake (n c : Nat)
+  | flushDrop (n : Nat)
   | wsend (w : Nat) (m : Msg)
   | wrecv (w : Nat)
   | ccall (c : Nat) (req : Msg)
@@ -281,7 +278,7 @@ deriving DecidableEq, Repr
 
 /-- a server / manager main loop that can take an event -/
 def State.loopOk (t : Topo) (s : State) (p : Nat) : Bool :=
-  decide (p < t.n) && (t.kind p != .worker) && s.alive p && s.running p && !(s.half p)
+  decide (p < t.n) && (t.kind p != .worker) && s.alive p && s.running p
 
 /-- one iteration of `ServerBase.run` of node `p` on the connection of employee `e` -/
 def recvEmp (t : Topo) (s : State) (p e : Nat) (emits : List (Dest × Msg)) (fails : Bool) :
@@ -372,34 +369,21 @@ def flush (t : Topo) (s : State) (n : Nat) : Option State :=
       else if s.copen c then some { s with toClient := upd s.toClient c (s.toClient c ++ [m]) }
       else some s
 
-/-- the outgoing thread of `n` gets ConnectionResetError while sending to the dead employee
-`e`: `handle_disconnect(e)` runs ON THE OUTGOING THREAD; `handle_shutdown` reaches
-`self.outgoing_thread.join()` = join of the current thread -> RuntimeError: the subclass part
-(close clients / tell upstream) is never executed and the main thread stays in `select()`. -/
-def outReset (t : Topo) (s : State) (n : Nat) : Option State :=
+/-- the outgoing thread's `send` fails (OSError: the peer process is dead): since fix
+9e98cc2 the item is dropped with a warning and the thread goes on; the main loop learns of
+the dead peer by its own EOF. -/
+def destDead (t : Topo) (s : State) (n : Nat) : Dest → Bool
+  | .up => !(s.alive (t.parent n))
+  | .emp e => !(s.alive e)
+  | .client c => !(s.cconn c)
+
+def flushDrop (t : Topo) (s : State) (n : Nat) : Option State :=
   if !(decide (n < t.n) && (t.kind n != .worker) && s.alive n && s.running n && s.outAlive n) then none
   else
   match s.outq n with
-  | (.emp e, _) :: _ =>
-    if !(t.isChild n e && s.downOpen e && !(s.alive e)) then none
-    else
-      -- detached / manager: `handle_disconnect` closed the connection first; attached: it is
-      -- still open but reset, so `initiate_shutdown`'s send fails just the same
-      let s0 := { s with downOpen := upd s.downOpen e false }
-      let s1 := baseShutdown t s0 n
-      some { s1 with half := upd s1.half n true, outAlive := upd s1.outAlive n false }
-  | _ => none
-
-/-- a half-shut-down node whose main thread is woken by an event on a connection that is
-still registered (server: client `c`; manager: upstream): the loop condition is false, the
-`finally` clause completes the shutdown. -/
-def wake (t : Topo) (s : State) (n c : Nat) : Option State :=
-  if !(decide (n < t.n) && s.alive n && s.half n) then none
-  else if n = 0 then
-    if s.copen c && (!(s.toServer c).isEmpty || !(s.cconn c)) then some (finishShutdown s n) else none
-  else
-    if s.upOpen n && (!(s.inbox n).isEmpty || !(s.alive (t.parent n) && s.downOpen n))
-    then some (finishShutdown s n) else none
+  | [] => none
+  | (d, _) :: rest =>
+    if destDead t s n d then some { s with outq := upd s.outq n rest } else none
 
 def isWorker (t : Topo) (s : State) (w : Nat) : Bool :=
   decide (w < t.n) && (t.kind w == .worker) && s.alive w
@@ -477,8 +461,7 @@ def step (t : Topo) (s : State) : Label → Option State
   | .recvUp n emits fails => recvUp t s n emits fails
   | .recvClient c emits fails => recvClient t s c emits fails
   | .flush n => flush t s n
-  | .outReset n => outReset t s n
-  | .wake n c => wake t s n c
+  | .flushDrop n => flushDrop t s n
   | .wsend w m => wsend t s w m
   | .wrecv w => wrecv t s w
   | .ccall c req => ccall s c req
@@ -489,9 +472,6 @@ def run (t : Topo) : State → List Label → Option State
   | s, l :: ls => match step t s l with
     | none => none
     | some s' => run t s' ls
-
-def Label.isOutReset : Label → Bool
-  | .outReset _ => true | _ => false
 
 /-! ### the reaction path and its potential -/
 
